@@ -86,6 +86,7 @@ class StepExec:
         self.notes: List[str] = []
         self.silent = 0
         self.atom_birth: Dict[str, int] = {}
+        self.atom_nodes: Dict[str, Any] = {}
         self.src_of: Dict[str, List[str]] = {}
         self.requires: Dict[str, Any] = {}
         self.taints: List[str] = []
@@ -95,6 +96,10 @@ class StepExec:
         self.loop_invs: Dict[str, Callable] = {}
         self.ret_stack: List[List[State]] = []
         self.depth = 0
+        self.param_names: set = set()
+        self.inner: Dict[Tuple[str, str], Any] = {}      # (container, loop variable) -> symbol for len(container[variable]) in the current iteration
+        self.ret_abs: Dict[int, Any] = {}                # id(call node) -> size abstraction of what an analysed callee returns
+        self.return_values: List[Any] = []
         self.probe = 0               # inside the first (delta-finding) pass over a loop body: nothing is recorded
         self.find_callee: Callable[[str], Optional[ast.FunctionDef]] = lambda name: None
         self.scoped: List[Any] = []
@@ -131,6 +136,7 @@ class StepExec:
             a = z3.Bool("atom:" + k)
             self.atoms[k] = a
             self.atom_birth[str(a)] = next(self.fresh)
+            self.atom_nodes[str(a)] = (node, {n.id: st.ver.get(n.id, 0) for n in ast.walk(node) if isinstance(n, ast.Name)})
             if isinstance(node, ast.Call) and isinstance(node.func, ast.Name) and node.func.id == "isinstance" and len(node.args) == 2 and isinstance(node.args[1], ast.Name) and node.args[1].id in EXCL_TYPES:
                 subj = self.vkey(node.args[0], st)
                 for s2, t2, a2 in self.isinst:
@@ -147,6 +153,10 @@ class StepExec:
             return self.sym("len:" + self.vkey(node, st), True)
         if isinstance(node, (ast.List, ast.Tuple)) and not any(isinstance(e, ast.Starred) for e in node.elts):
             return z3.RealVal(len(node.elts))
+        if isinstance(node, ast.IfExp):
+            return z3.If(self.cond(node.test, st), self.length(node.body, st), self.length(node.orelse, st))
+        if isinstance(node, ast.Subscript) and isinstance(node.value, ast.Name) and isinstance(node.slice, ast.Name) and (node.value.id, node.slice.id) in self.inner:
+            return self.inner[(node.value.id, node.slice.id)]          # len(D[a]) inside `for a in D`: one value of the nested container
         if isinstance(node, (ast.ListComp, ast.GeneratorExp, ast.SetComp)):
             n = z3.RealVal(1)
             filtered = False
@@ -289,6 +299,9 @@ class StepExec:
                 for o, a, b in zip(e.ops, vals, vals[1:]):
                     parts.append({ast.Lt: a < b, ast.LtE: a <= b, ast.Gt: a > b, ast.GtE: a >= b, ast.Eq: a == b, ast.NotEq: a != b}[type(o)])
                 return z3.And(*parts) if len(parts) > 1 else parts[0]
+        if isinstance(e, ast.Compare) and len(e.ops) == 1 and isinstance(e.ops[0], (ast.IsNot, ast.NotEq)):
+            flipped = ast.Compare(left=e.left, ops=[ast.Is() if isinstance(e.ops[0], ast.IsNot) else ast.Eq()], comparators=e.comparators)
+            return z3.Not(self.atom(flipped, st))            # `x is not None` / `x != c` are the negations of `x is None` / `x == c`
         if isinstance(e, ast.Name) and st.kind.get(e.id) == "len":
             return st.vars[e.id] > 0                      # truthiness of a list the function built
         if isinstance(e, ast.Name) and st.kind.get(e.id) == "bool":
@@ -319,6 +332,13 @@ class StepExec:
                     out.append(n.id)
                 elif isinstance(n, ast.Call) and isinstance(n.func, ast.Attribute) and n.func.attr in ("append", "extend", "insert", "pop", "remove", "clear") and isinstance(n.func.value, ast.Name):
                     out.append(n.func.value.id)
+                elif isinstance(n, ast.Subscript) and isinstance(n.ctx, ast.Store):
+                    root = n.value
+                    while isinstance(root, ast.Subscript):
+                        root = root.value
+                    if isinstance(root, ast.Name):
+                        out.append(root.id)
+                        out.append(root.id + "#tot")
         return sorted(set(out))
 
     def block(self, body: List[ast.stmt], st: State, loop: Optional[dict] = None) -> State:
@@ -483,17 +503,30 @@ class StepExec:
             self.ctxs[cname].tainted = f"inside {callee}(): {sc.tainted}"
             return st
         delta = None
-        for e in sub.returns:
+        rets = []
+        for e, rv in zip(sub.returns, sub.return_values):
             if z3.is_false(z3.simplify(e.guard)):
                 continue
             delta = e.cnt[prog_param] if delta is None else self.ub2(delta, e.cnt[prog_param])
+            rets.append(sub.size_of(rv, e))
         if delta is None:
             delta = z3.RealVal(0)
-        # callee parameter symbols -> caller argument values
+        # what the callee returns, as sizes: one abstraction, or a list for a returned tuple; the maximum over the exits
+        ret = None
+        if rets and all(r is not None for r in rets) and len({(len(r) if isinstance(r, list) else -1) for r in rets}) == 1:
+            def join(a, b):
+                if a is None or b is None:
+                    return None
+                return {"len": self.ub2(a["len"], b["len"]), "tot": (self.ub2(a["tot"], b["tot"]) if a.get("tot") is not None and b.get("tot") is not None else None)}
+            ret = rets[0]
+            for r in rets[1:]:
+                ret = [join(x, y) for x, y in zip(ret, r)] if isinstance(ret, list) else join(ret, r)
+        # callee parameter symbols -> caller argument values; callee branch atoms over unmodified parameters -> the caller's condition
         mapping = []
         defaults = {}
         for x, d in zip(reversed(a.posonlyargs + a.args), reversed(a.defaults)):
             defaults[x.arg] = d
+        arg_nodes: Dict[str, ast.AST] = {}
         for p_ in params + [x.arg for x in a.kwonlyargs]:
             if p_ == prog_param:
                 continue
@@ -504,16 +537,93 @@ class StepExec:
                 numv, lenv = node.num, node.length
             else:
                 numv, lenv = self.num(node, st), self.length(node, st)
+                arg_nodes[p_] = node
+                if isinstance(node, ast.Name) and (node.id + "#tot") in st.vars:
+                    mapping.append((z3.Real(f"len:{p_}#tot|"), st.vars[node.id + "#tot"]))
             if numv is not None:
                 mapping.append((z3.Real(f"{p_}@0"), numv))
             if lenv is not None:
                 mapping.append((z3.Real(f"len:{p_}|{p_}@0"), lenv))
-        delta = z3.substitute(delta, *mapping) if mapping else delta
+
+        class Rename(ast.NodeTransformer):
+            def visit_Name(self_, n):
+                return arg_nodes[n.id] if n.id in arg_nodes else n
+        untranslated = []
+        for aname, (node, vers) in sub.atom_nodes.items():
+            names = set(vers)
+            if names and all((n in arg_nodes or n in ("isinstance", "str", "list", "dict", "tuple", "len")) and vers[n] == 0 for n in names) and any(n in arg_nodes for n in names):
+                import copy
+                mapping.append((z3.Bool(aname), self.cond(Rename().visit(copy.deepcopy(node)), st)))
+            else:
+                untranslated.append(aname)
+
+        def carry(e):
+            if e is None:
+                return None
+            u = self.upper_over(e, untranslated)
+            if u is None:
+                return None
+            return z3.substitute(u, *mapping) if mapping else u
+        delta = carry(delta)
+        if delta is None:
+            self.ctxs[cname].tainted = f"steps inside {callee}() depend on conditions the caller cannot see"
+            return st
+        if ret is not None:
+            conv = lambda r: None if r is None else ({"len": carry(r["len"]), "tot": carry(r.get("tot"))} if carry(r["len"]) is not None else None)
+            self.ret_abs[id(call)] = [conv(r) for r in ret] if isinstance(ret, list) else conv(ret)
         for h in sub.hyps:
             self.hyps.append(z3.substitute(h, *mapping) if mapping else h)
         self.atom_birth.update(sub.atom_birth)
-        self.note(f"line {line}: {callee}() has no declared step contract; inferred from its body: steps <= {z3.simplify(delta)}")
+        self.note(f"line {line}: {callee}() has no declared step contract; inferred from its body: steps <= {str(z3.simplify(delta))[:160]}")
         return self.advance(st, cname, delta, line, cond)
+
+    def upper_over(self, e, atom_names: List[str]):
+        """an upper bound of e that does not depend on the named (callee-local) atoms"""
+        if not atom_names:
+            return e
+        names = set(atom_names)
+
+        def has(x):
+            seen, todo = set(), [x]
+            while todo:
+                y = todo.pop()
+                if y.get_id() in seen:
+                    continue
+                seen.add(y.get_id())
+                if z3.is_const(y) and z3.is_bool(y) and str(y) in names:
+                    return True
+                todo.extend(y.children())
+            return False
+
+        def up(d):
+            if not has(d):
+                return d
+            k = d.decl().kind()
+            if k == z3.Z3_OP_ITE:
+                a_, b_ = up(d.arg(1)), up(d.arg(2))
+                if a_ is None or b_ is None:
+                    return None
+                return z3.If(d.arg(0), a_, b_) if not has(d.arg(0)) else self.ub2(a_, b_)
+            if k == z3.Z3_OP_ADD:
+                parts = [up(c) for c in d.children()]
+                return None if any(p_ is None for p_ in parts) else z3.Sum(parts)
+            if k == z3.Z3_OP_MUL and d.num_args() == 2 and not has(d.arg(0)):
+                u = up(d.arg(1))
+                return None if u is None else d.arg(0) * u          # the other factor is a size or a count: non-negative
+            return None
+        return up(z3.simplify(e))
+
+    def size_of(self, node: Optional[ast.AST], st: State):
+        """size abstraction of a returned expression: {'len', 'tot'} for a container this function sized, a list for a tuple"""
+        if node is None:
+            return None
+        if isinstance(node, ast.Tuple):
+            return [self.size_of(e, st) for e in node.elts]
+        if isinstance(node, ast.Call) and isinstance(node.func, ast.Name) and node.func.id in ("sorted", "list", "tuple") and node.args:
+            return self.size_of(node.args[0], st)
+        if isinstance(node, ast.Name) and st.kind.get(node.id) in ("len", "gen"):
+            return {"len": st.vars[node.id], "tot": st.vars.get(node.id + "#tot")}
+        return None
 
     def bind(self, call: ast.Call, params: List[str], st: State) -> Dict[Any, Any]:
         """argument name (or position) -> AST node or pre-evaluated Val (entries of a `**record`)"""
@@ -608,6 +718,16 @@ class StepExec:
         fname = (value.func.id if isinstance(value.func, ast.Name) else getattr(value.func, "attr", "")) if is_call else ""
         self.records.pop(name, None)
         entries = None
+        if isinstance(value, ast.Dict) and not value.keys:
+            # an empty dict this function fills: its size, and (name#tot) the summed sizes of the containers stored in it
+            self.bump(st, name)
+            self.bump(st, name + "#tot")
+            st.vars[name], st.kind[name] = z3.RealVal(0), "len"
+            st.vars[name + "#tot"], st.kind[name + "#tot"] = z3.RealVal(0), "len"
+            return st
+        if isinstance(value, ast.Call) and id(value) in self.ret_abs and self.ret_abs[id(value)] is not None and not isinstance(self.ret_abs[id(value)], list):
+            self.bind_ret(st, name, self.ret_abs[id(value)])
+            return st
         if is_call and isinstance(value.func, ast.Name) and fname == "dict" and not value.args and all(k.arg for k in value.keywords):
             entries = [(k.arg, k.value) for k in value.keywords]
         elif isinstance(value, ast.Dict) and all(isinstance(k, ast.Constant) and isinstance(k.value, str) for k in value.keys):
@@ -649,6 +769,18 @@ class StepExec:
                 st.present[name] = present
         return st
 
+    def bind_ret(self, st: State, name: str, ab: Dict[str, Any]):
+        """name = callee(...): a container whose size (and nested total) is bounded by what the callee's body yields"""
+        self.bump(st, name)
+        self.bump(st, name + "#tot")
+        v = self.new(f"len:{name}@ret", True)
+        self.hyps.append(v <= ab["len"])
+        st.vars[name], st.kind[name] = v, "len"
+        if ab.get("tot") is not None:
+            t = self.new(f"tot:{name}@ret", True)
+            self.hyps.append(t <= ab["tot"])
+            st.vars[name + "#tot"], st.kind[name + "#tot"] = t, "len"
+
     def stmt(self, s: ast.stmt, st: State, loop: Optional[dict]) -> State:
         ln = s.lineno
         if isinstance(s, (ast.Pass, ast.Import, ast.ImportFrom, ast.Global, ast.Nonlocal, ast.Assert)):
@@ -671,7 +803,23 @@ class StepExec:
             if len(targets) == 1 and isinstance(targets[0], ast.Name):
                 return self.assign(targets[0].id, s.value, st)
             st = st.copy()
+            if len(targets) == 1 and isinstance(targets[0], ast.Tuple) and isinstance(s.value, ast.Call) and isinstance(self.ret_abs.get(id(s.value)), list) \
+                    and len(self.ret_abs[id(s.value)]) == len(targets[0].elts) and all(isinstance(e, ast.Name) for e in targets[0].elts):
+                for e, ab in zip(targets[0].elts, self.ret_abs[id(s.value)]):
+                    if ab is not None:
+                        self.bind_ret(st, e.id, ab)
+                    else:
+                        self.bump(st, e.id)
+                return st
             for t in targets:
+                if isinstance(t, ast.Subscript) and isinstance(t.value, ast.Name) and st.kind.get(t.value.id) == "len" and (t.value.id + "#tot") in st.vars:
+                    # D[k] = v: one more entry (keys assumed distinct -- an upper bound otherwise)
+                    st.vars[t.value.id] = st.vars[t.value.id] + 1
+                    continue
+                if isinstance(t, ast.Subscript) and isinstance(t.value, ast.Subscript) and isinstance(t.value.value, ast.Name) and (t.value.value.id + "#tot") in st.vars:
+                    # D[a][b] = v: one more entry in one of the nested containers
+                    st.vars[t.value.value.id + "#tot"] = st.vars[t.value.value.id + "#tot"] + 1
+                    continue
                 if isinstance(t, ast.Subscript) and isinstance(t.value, ast.Name) and t.value.id in self.records:
                     key = t.slice.value if isinstance(t.slice, ast.Constant) else None
                     if key is None or self.records[t.value.id].get(key, Val()).ctx is not None or self._ctx_of(s.value):
@@ -721,6 +869,7 @@ class StepExec:
                 self.exits(st, ln, f"the {self.ordinal('return', ln)}")
                 if not self.probe:
                     self.returns.append(st)
+                    self.return_values.append(s.value)
             out = st.copy()
             out.guard = z3.BoolVal(False)
             return out
@@ -745,7 +894,16 @@ class StepExec:
             for n in ast.walk(s.target):
                 if isinstance(n, ast.Name):
                     self.bump(st, n.id)
-            st = self.loop(s.body, trip, st, ln, targets=[n.id for n in ast.walk(s.target) if isinstance(n, ast.Name)], consumes=self.gen_roots(s.iter, st))
+            nested = None
+            if isinstance(s.iter, ast.Name) and isinstance(s.target, ast.Name):
+                uses_inner = any(isinstance(n, ast.Subscript) and isinstance(n.value, ast.Name) and n.value.id == s.iter.id and isinstance(n.slice, ast.Name) and n.slice.id == s.target.id
+                                 for b in s.body for n in ast.walk(b))
+                if uses_inner and (s.iter.id + "#tot") not in st.vars and s.iter.id in self.param_names and st.ver.get(s.iter.id, 0) == 0:
+                    # a parameter that is a container of containers: its nested total is one more symbol of the summary
+                    st.vars[s.iter.id + "#tot"], st.kind[s.iter.id + "#tot"] = self.sym(f"len:{s.iter.id}#tot|", True), "len"
+                if uses_inner and (s.iter.id + "#tot") in st.vars:
+                    nested = (s.iter.id, s.target.id)
+            st = self.loop(s.body, trip, st, ln, targets=[n.id for n in ast.walk(s.target) if isinstance(n, ast.Name)], consumes=self.gen_roots(s.iter, st), nested=nested)
             return self.block(s.orelse, st, loop)
         if isinstance(s, ast.While):
             return self.while_(s, st, loop)
@@ -878,7 +1036,7 @@ class StepExec:
             self.oblige("exc-free", st, st.cnt[c.name] + 1 <= c.total, line, f"{c.label}: steps taken + 1 <= total at {how}")
 
     # ------------------------------------------------------------------ loops
-    def loop(self, body: List[ast.stmt], trip, st: State, line: int, targets: List[str], consumes: Optional[List[str]] = None) -> State:
+    def loop(self, body: List[ast.stmt], trip, st: State, line: int, targets: List[str], consumes: Optional[List[str]] = None, nested=None) -> State:
         """summary of `trip` iterations of body by the inductive invariant
                v == v0 + k*d   for every tracked quantity the body changes by a path-independent amount d (else v is forgotten)
                steps <= c0 + k*dmax   (== if the body always takes the same number of steps)
@@ -903,19 +1061,31 @@ class StepExec:
             mark = len(self.scoped)
             self.scoped.append(k + 1 <= trip)
             if install is not None:
-                for n, d in install["d"].items():
-                    self.scoped.append(pre[n] == st.vars[n] + k * d)
+                for n, (c0, c1) in install["d"].items():
+                    if z3.is_rational_value(z3.simplify(c1)) and z3.simplify(c1).as_fraction() == 0:
+                        self.scoped.append(pre[n] == st.vars[n] + k * c0)
+                    else:
+                        self.scoped.append(z3.And(pre[n] >= st.vars[n] + k * c0, pre[n] <= st.vars[n] + k * c0 + c1 * TOT)) if TOT is not None else None
                 for n, u in install["ub"].items():
                     if n not in install["d"] and n in pre:
                         self.scoped.append(pre[n] <= st.vars[n] + k * u)
-                for name, (dmax, exact) in install["c"].items():
-                    self.scoped.append(cpre[name] == st.cnt[name] + k * dmax if exact else z3.And(cpre[name] <= st.cnt[name] + k * dmax, cpre[name] >= st.cnt[name]))
+                for name, ((c0, c1), exact) in install["c"].items():
+                    flat = z3.is_rational_value(z3.simplify(c1)) and z3.simplify(c1).as_fraction() == 0
+                    hi = st.cnt[name] + k * c0 + (c1 * TOT if (not flat and TOT is not None) else 0)
+                    self.scoped.append(cpre[name] == st.cnt[name] + k * c0 if (exact and flat) else z3.And(cpre[name] <= hi, cpre[name] >= st.cnt[name]))
             inner = {"break": [], "continue": []}
             end = self.block(body, entry, inner)
             del self.scoped[mark:]
             return pre, cpre, k, end, inner
 
         born = next(self.fresh)
+        tsym = None
+        TOT = st.vars.get(nested[0] + "#tot") if nested is not None else None
+        if nested is not None:
+            # `for a in D` over a container of containers: t stands for len(D[a]) in this iteration; the t's of all iterations add
+            # up to D#tot, so a per-iteration change c0 + c1*t sums to c0*trip + c1*(D#tot)
+            tsym = self.new(f"len:{nested[0]}[{nested[1]}]", True)
+            self.inner[nested] = tsym
         self.silent += 1
         self.probe += 1
         try:
@@ -931,7 +1101,7 @@ class StepExec:
             ds = [(e.guard, self.delta_of(e.guard, e.vars[n], pre[n])) for e in ends + breaks if n in e.vars and e.kind.get(n) == st.kind[n]]
             if st.kind[n] == "len" and len(ds) == len(ends + breaks) and ds:
                 ups = [self.upper(d, born) for _, d in ds]
-                if all(u is not None and not self.mentions(u, internal) for u in ups):
+                if all(u is not None and not self.mentions(u, internal + ([tsym] if tsym is not None else [])) for u in ups):
                     u = ups[0]
                     for w in ups[1:]:
                         u = self.ub2(u, w)
@@ -941,7 +1111,9 @@ class StepExec:
                 continue
             d0 = ds[0][1]
             if not self.mentions(d0, internal) and not self.has_atoms(d0, born) and all(self.always_eq(g, d, d0) for g, d in ds[1:]):
-                summary["d"][n] = d0
+                lin = self.linear_in(d0, tsym)
+                if lin is not None:
+                    summary["d"][n] = lin
         for name in st.cnt:
             ds = [self.delta_of(e.guard, e.cnt[name], cpre[name]) for e in ends + breaks if name in e.cnt]
             dmax = None
@@ -954,7 +1126,12 @@ class StepExec:
                 dmax = u if dmax is None else self.ub2(dmax, u)
             dmax = z3.simplify(dmax) if dmax is not None else z3.RealVal(0)
             exact = not breaks and len({d.sexpr() for d in ds}) <= 1 and all(not self.has_atoms(d, born) for d in ds)
-            summary["c"][name] = (dmax, exact)
+            lin = self.linear_in(dmax, tsym)
+            if lin is None:
+                if name in self.ctxs:
+                    self.ctxs[name].tainted = f"steps per iteration of the loop at line {line} depend non-linearly on the size of a nested container"
+                lin = (z3.RealVal(0), z3.RealVal(0))
+            summary["c"][name] = (lin, exact)
         if not self.silent:
             iteration(summary)                       # pass 2: obligations inside the body, under the invariant
         out = st.copy()
@@ -966,9 +1143,12 @@ class StepExec:
             self.hyps.append(j <= trip)
         else:
             j = trip
+        if nested is not None:
+            self.inner.pop(nested, None)
         for n in changed:
             if n in summary["d"] and not breaks:
-                out.vars[n] = st.vars[n] + j * summary["d"][n]
+                c0, c1 = summary["d"][n]
+                out.vars[n] = st.vars[n] + j * c0 + (c1 * TOT if TOT is not None else 0)
             elif n in summary["ub"]:
                 v = self.new(f"len:{n}@after", True)
                 self.hyps.append(v <= st.vars[n] + j * summary["ub"][n])
@@ -976,12 +1156,13 @@ class StepExec:
                 out.vars[n], out.kind[n] = v, "len"
             else:
                 self.bump(out, n)
-        for name, (dmax, exact) in summary["c"].items():
+        for name, ((c0, c1), exact) in summary["c"].items():
+            total_delta = j * c0 + (c1 * TOT if TOT is not None else 0)
             if exact:
-                out.cnt[name] = st.cnt[name] + j * dmax
+                out.cnt[name] = st.cnt[name] + total_delta
             else:
                 v = self.new(f"steps:{name}@after", True)
-                self.hyps.append(z3.And(v <= st.cnt[name] + j * dmax, v >= st.cnt[name]))
+                self.hyps.append(z3.And(v <= st.cnt[name] + total_delta, v >= st.cnt[name]))
                 out.cnt[name] = v
         for g in consumes or []:
             if out.kind.get(g) == "gen":
@@ -989,6 +1170,16 @@ class StepExec:
                 self.hyps.append(rem <= st.vars[g] - j)          # every iteration took at least one item out of the one-shot iterator
                 out.vars[g] = rem
         return out
+
+    def linear_in(self, d, t):
+        """(c0, c1) with d == c0 + c1*t, c0 and c1 free of t (validated); (d, 0) when there is no t"""
+        if t is None or not self.mentions(d, [t]):
+            return (d, z3.RealVal(0))
+        c0 = z3.simplify(z3.substitute(d, (t, z3.RealVal(0))))
+        c1 = z3.simplify(z3.substitute(d, (t, z3.RealVal(1))) - c0)
+        if self.mentions(c0, [t]) or self.mentions(c1, [t]) or not self.always_eq(z3.BoolVal(True), d, c0 + c1 * t):
+            return None
+        return (c0, c1)
 
     def delta_of(self, guard, after, before_sym):
         """after - before_sym when `after` is before_sym + d with d free of before_sym (validated), else the plain difference"""
@@ -1137,6 +1328,7 @@ class StepExec:
     def run_function(self, prog_params: Optional[Dict[str, Any]] = None, callable_param: bool = False) -> State:
         st = State()
         args = self.fn.args
+        self.param_names = {a.arg for a in args.posonlyargs + args.args + args.kwonlyargs}
         for a in args.posonlyargs + args.args + args.kwonlyargs:
             st.ver[a.arg] = 0
         for p, bound in (prog_params or {}).items():
@@ -1146,6 +1338,7 @@ class StepExec:
             st.cnt[p] = z3.RealVal(0)
         end = self.block(self.fn.body, st, None)
         self.returns.append(end)
+        self.return_values.append(None)
         return end
 
 
@@ -1227,7 +1420,8 @@ def _own_args(ex: StepExec, fn: ast.FunctionDef) -> Args:
 
 
 def analyse(sess: Session, module: str, fn: ast.FunctionDef, contracts: Dict[str, StepContract], own: Optional[StepContract] = None,
-            requires: Optional[Dict[str, Requires]] = None, externals: Optional[Dict[str, Callable]] = None, loop_invs: Optional[Dict[str, Any]] = None) -> StepExec:
+            requires: Optional[Dict[str, Requires]] = None, externals: Optional[Dict[str, Callable]] = None, loop_invs: Optional[Dict[str, Any]] = None,
+            prepare: Optional[Callable] = None) -> StepExec:
     """all Progress contexts of one function; with `own`, also `prog advanced by <= own.delta(parameters)` at every normal exit.
     `requires`: preconditions, assumed for fn itself and obligations (call-pre) wherever fn's body calls one of these functions."""
     ex = StepExec(sess, module, fn, contracts)
@@ -1235,13 +1429,36 @@ def analyse(sess: Session, module: str, fn: ast.FunctionDef, contracts: Dict[str
     ex.externals = dict(externals or {})
     ex.loop_invs = dict(loop_invs or {})
 
-    def find_callee(name: str):
+    def find_callee(name: str, _module=module, _depth=0):
+        """the definition of a function called by name: in the module itself, or in the module it is imported from"""
         from .core import module_ast
-        for n in module_ast(module).body:
+        try:
+            tree = module_ast(_module)
+        except (FileNotFoundError, OSError):
+            return None
+        for n in tree.body:
             if isinstance(n, ast.FunctionDef) and n.name == name:
                 return n
+        if _depth >= 2:
+            return None
+        for n in tree.body:
+            if isinstance(n, ast.ImportFrom) and n.level >= 1 and any((al.asname or al.name) == name for al in n.names):
+                base = _module.split("/")
+                if base[-1] == "__init__":
+                    base = base[:-1]
+                else:
+                    base = base[:-1]
+                base = base[:len(base) - (n.level - 1)] if n.level > 1 else base
+                target = "/".join(base + (n.module.split(".") if n.module else []))
+                orig = next(al.name for al in n.names if (al.asname or al.name) == name)
+                for cand in (target, target + "/__init__"):
+                    got = find_callee(orig, cand, _depth + 1)
+                    if got is not None:
+                        return got
         return None
     ex.find_callee = find_callee
+    if prepare is not None:
+        prepare(ex)
     try:
         mine = ex.requires.get(fn.name)
         if mine is not None:
